@@ -181,6 +181,90 @@ TPURE = {
 }
 
 
+# a small model of the chrono values the writer handles: an instant is (UTC milliseconds, offset in seconds)
+NOW_UTC = z3.BitVec("now_utc_ms", 64)
+NOW_OFF = z3.BitVec("now_offset_s", 32)
+
+
+def _is_now(e, st, v):
+    v = summaries.deref_val(e, st, v)
+    return isinstance(v, Lazy) and v.name in ("now", "start_time", "timestamp", "time") or (isinstance(v, Agg) and v.ty == "DateTimeModel")
+
+
+def _parts(e, st, v):
+    v = summaries.deref_val(e, st, v)
+    if isinstance(v, Agg) and v.ty == "DateTimeModel":
+        return v.fields[0], v.fields[1]
+    if isinstance(v, Lazy):
+        return Agg("NaiveDateTime", {0: Int(NOW_UTC, "i64")}), Agg("FixedOffset", {0: Int(NOW_OFF, "i32")})
+    return None
+
+
+def _m_naive_utc(e, st, c, a, d):
+    p = _parts(e, st, a[0])
+    return p[0] if p else NotImplemented
+
+
+def _m_offset(e, st, c, a, d):
+    """DateTime::offset returns a reference to the offset"""
+    p = _parts(e, st, a[0])
+    if not p:
+        return NotImplemented
+    cell = "tz_off_cell_%d" % len([k for k in st.mem if str(k).startswith("tz_off_cell_")])
+    st.mem[cell] = p[1]
+    return Ref(cell, (), False)
+
+
+def _m_from_utc_off(e, st, c, a, d):
+    n, o = summaries.deref_val(e, st, a[0]), summaries.deref_val(e, st, a[1])
+    if isinstance(n, Agg) and n.ty == "NaiveDateTime" and isinstance(o, Agg) and o.ty == "FixedOffset":
+        return Agg("DateTimeModel", {0: n, 1: o})
+    return NotImplemented
+
+
+def _m_east(sign):
+    def f(e, st, c, a, d):
+        if not isinstance(a[0], Int):
+            return NotImplemented
+        t = a[0].t if sign > 0 else -a[0].t
+        v = Agg("FixedOffset", {0: Int(t, "i32")})
+        return EnumV("Option", "Some", 1, {0: v}) if c.endswith("_opt") else v
+    return f
+
+
+def _m_local_minus_utc(e, st, c, a, d):
+    o = summaries.deref_val(e, st, a[0])
+    if isinstance(o, Agg) and o.ty == "FixedOffset":
+        return o.fields[0]
+    return NotImplemented
+
+
+def _m_keep_instant(off_zero):
+    def f(e, st, c, a, d):
+        p = _parts(e, st, a[0])
+        if not p:
+            return NotImplemented
+        return Agg("DateTimeModel", {0: p[0], 1: Agg("FixedOffset", {0: Int(z3.BitVecVal(0, 32), "i32")}) if off_zero else p[1]})
+    return f
+
+
+TMODEL = {
+    r"(Local|Utc)::now$|SystemTime::now$": summaries.pure("clock_now"),
+    r"DateTime(<.*>)?::naive_utc$": _m_naive_utc,
+    r"DateTime(<.*>)?::offset$": _m_offset,
+    r"DateTime(<.*>)?::from_naive_utc_and_offset$": _m_from_utc_off,
+    r"DateTime(<.*>)?::fixed_offset$": _m_keep_instant(False),
+    r"DateTime(<.*>)?::to_utc$": _m_keep_instant(True),
+    r"FixedOffset::east(_opt)?$": _m_east(1),
+    r"FixedOffset::west(_opt)?$": _m_east(-1),
+    r"FixedOffset::local_minus_utc$": _m_local_minus_utc,
+    r"FixedOffset::utc_minus_local$": lambda e, st, c, a, d: (lambda r: Int(-r.t, "i32") if isinstance(r, Int) else NotImplemented)(_m_local_minus_utc(e, st, c, a, d)),
+    r"Offset>::fix$": lambda e, st, c, a, d: summaries.deref_val(e, st, a[0]) if isinstance(summaries.deref_val(e, st, a[0]), Agg) else NotImplemented,
+    r"DateTime(<.*>)?::naive_local$": summaries.pure("naive_local"),
+    r"DateTime(<.*>)?::from_local$|DateTime(<.*>)?::from_utc$": summaries.pure("from_other"),
+}
+
+
 def time_order(rep, ctx):
     binp, lib = ctx.bin, ctx.lib
     eb = oblig.engine(binp, unroll=0, extra=TPURE)
@@ -211,7 +295,8 @@ def time_order(rep, ctx):
     rep.add(o)
 
     # the writer stores exactly that instant
-    el = oblig.engine(lib, unroll=0, extra=TPURE)
+    import optsum as _os
+    el = oblig.engine(lib, unroll=0, extra=dict(_os.SUMMARIES, **TMODEL))
     wname = meth = "write_report"
     cands = [f for n, f in lib.fns.items() if re.search(r"(^|::)write_report(_\w+)?$", n) and "{closure" not in n]
     fi = lib.src.field_index
@@ -227,21 +312,20 @@ def time_order(rep, ctx):
             if hdr is None:
                 return None
             ts = hdr.fields.get(fi("ReportHeader", "timestamp"))
-            c = summaries.canon(el, _st(p), ts)
             inner_clock = [ev for ev in p.events if ev.kind == "call" and re.search(CLOCK, ev.callee)]
-            # canonical names are sanitised: `from_naive_utc_and_offset(naive_utc(T);offset(T))` reads
-            # `from_naive_utc_and_offset_naive_utc_T__offset_T_..`
-            shape_ok = False
-            m = re.match(r"from_naive_utc_and_offset_naive_utc_(.+?)__offset_(.+?)_[*_]*$", c)
-            if m:
-                shape_ok = m.group(1) == m.group(2)
-            elif c.startswith("fixed_offset_") or not re.search(r"naive_|from_naive|from_other|offset_", c):
-                shape_ok = True
-            # if a timestamp parameter exists it must be the one that is used (no fresh clock read)
+            # the header's instant is the given one, and its offset is a whole number of minutes: the text and JSON formats record
+            # the offset as +hhmm / +hh:mm, so a sub-minute part would move the instant that is read back (and with it the default
+            # --modified-before) by up to 59 s
+            tsv = summaries.deref_val(el, _st(p), ts)
+            if not (isinstance(tsv, Agg) and tsv.ty == "DateTimeModel"):
+                return z3.BoolVal(False)
+            u, o_ = tsv.fields[0], tsv.fields[1]
+            if not (isinstance(u, Agg) and isinstance(u.fields.get(0), Int) and isinstance(o_, Agg) and isinstance(o_.fields.get(0), Int)):
+                return z3.BoolVal(False)
             has_param = any("DateTime" in ty or "SystemTime" in ty for _, ty in f.args)
             src_ok = (not inner_clock) if has_param else True
-            return z3.BoolVal(shape_ok and src_ok)
-        o2 = oblig.check_paths(el, ps, "%s: the header timestamp is the given instant, converted with its own UTC time and offset" % f.name.split("::")[-1],
+            return z3.And(u.fields[0].t == NOW_UTC, z3.SRem(o_.fields[0].t, z3.BitVecVal(60, 32)) == 0, z3.BoolVal(src_ok))
+        o2 = oblig.check_paths(el, ps, "%s: the header timestamp is the given instant, with an offset of whole minutes (what the report formats can carry)" % f.name.split("::")[-1],
                                ts_prop, oblig.fnames(el), key="timestamp:conversion", allow=("return", "panic", "diverge", "bound"), need_witness=False)
         if o2.stats.get("relevant_paths", 0) == 0:
             continue            # a thin wrapper that does not build the header itself
